@@ -23,7 +23,8 @@ func VerifC06Task(nc, nv, nb, na, cond int) {
 	if nv > 0 {
 		t.Variations = make([]map[string]string, nv)
 		for i := range t.Variations {
-			t.Variations[i] = map[string]string{"V": vDigits[i]}
+			// the values are symbolic over a two-element domain: variations may repeat one another
+			t.Variations[i] = map[string]string{"V": rt.OneOf("variation."+vDigits[i]+".V", "x", "y")}
 		}
 	}
 	t.Before = c06Before[:nb]
